@@ -263,6 +263,41 @@ def gen_shape(rng, cell):
     raise ValueError(k)
 
 
+ROOT_KINDS = ["alr1", "alr2", "cat_rows", "prod0", "prod_last"]
+
+
+def root_cells(quick):
+    """operations the library defines through root decompositions (PSD operands; direct predicate with tolerance only)"""
+    out = []
+    for ci, c in enumerate(g.PSD_OK):
+        for ki, k in enumerate(ROOT_KINDS):
+            cand = [[], [2], [2, 3]] if not k.startswith("prod") else [[2], [3], [2, 3]]
+            bs = [cand[(ci + ki) % len(cand)]] if quick else cand
+            for b in bs:
+                out.append(("root", k, c, tuple(b)))
+    return out
+
+
+def gen_root(rng, cell):
+    _, k, c, b = cell
+    b = list(b)
+    e = g.inst(rng, c, b, N, psd=True)
+    a = leaf(e)
+    b = list(ob.shape_of(e)[:-2])          # the operand's actual batch shape (BatchRepeat over () has batch (1,))
+    if k == "alr1":
+        return {"p": "add_low_rank", "a": a, "t": ob.rand_t(rng, b + [N, 1], -2, 2)}
+    if k == "alr2":
+        return {"p": "add_low_rank", "a": a, "t": ob.rand_t(rng, [N, 2], -2, 2)}
+    if k == "cat_rows":
+        nb = int(torch.tensor(b).prod()) if b else 1
+        return {"p": "cat_rows", "a": a, "B": ob.rand_t(rng, b + [1, N], -1, 1), "D": ob.T(b + [1, 1], [60] * nb)}
+    if k == "prod0":
+        return {"p": "prod", "a": a, "dim": 0}
+    if k == "prod_last":
+        return {"p": "prod", "a": a, "dim": -3}
+    raise ValueError(k)
+
+
 PROG_LEAVES = ["Dense", "Diag", "ConstantDiag", "Identity", "Toeplitz", "Triangular", "Root", "LowRankRoot", "Kron", "KronDiag", "Sum",
                "AddedDiag", "Matmul", "ConstantMul", "KronAddedDiag", "LowRankRootAddedDiag", "Chol", "PsdSum", "SumKron", "Kernel",
                "UserMinimal", "BlockDiag", "Cat", "Interpolated", "SumBatch", "BatchRepeat", "KronTriangular", "BlockInterleaved", "Masked"]
@@ -323,7 +358,7 @@ def gen_prog(rng, idx, depth):
 
 
 def all_cells(quick):
-    cells = pair_cells(quick) + scalar_cells(quick) + shape_cells(quick)
+    cells = pair_cells(quick) + scalar_cells(quick) + shape_cells(quick) + root_cells(quick)
     nprog = 240 if quick else 1500
     for i in range(nprog):
         cells.append(("prog", i, 2 + i % 3 if quick else 2 + i % 5))
@@ -337,6 +372,8 @@ def gen_cell(rng, cell):
         return gen_scalar(rng, cell)
     if cell[0] == "shape":
         return gen_shape(rng, cell)
+    if cell[0] == "root":
+        return gen_root(rng, cell)
     return gen_prog(rng, cell[1], cell[2])
 
 
@@ -451,7 +488,7 @@ def cause_of(k):
     if op in ("add_diagonal", "add_jitter") and cul == "Zero" and exc in ("zero-add-diag-incompatible", "zero-add-diag-rank", "expand-size-mismatch") \
             and (k.get("nbatch") or 0) >= 2:
         return "zero-add-diagonal-multibatch"
-    if op == "sum" and cul == "KroneckerProductDiag" and exc == "krondiag-components":
+    if op in ("sum", "prod") and cul == "KroneckerProductDiag" and exc == "krondiag-components":
         return "krondiag-sum-batch"
     return None
 
